@@ -9,8 +9,8 @@ impl<A: Codec> Index<Range<usize>> for SeqSlice<A> {
     type Output = SeqSlice<A>;
 
     fn index(&self, range: Range<usize>) -> &Self::Output {
-        let s = range.start * A::BITS as usize;
-        let e = range.end * A::BITS as usize;
+        let s = range.start.saturating_mul(A::BITS as usize);
+        let e = range.end.saturating_mul(A::BITS as usize);
         let bs: *const Bs = ptr::from_ref::<Bs>(&self.bs[s..e]);
         unsafe { &*(bs as *const SeqSlice<A>) }
     }
@@ -20,7 +20,7 @@ impl<A: Codec> Index<RangeTo<usize>> for SeqSlice<A> {
     type Output = SeqSlice<A>;
 
     fn index(&self, range: RangeTo<usize>) -> &Self::Output {
-        let e = range.end * A::BITS as usize;
+        let e = range.end.saturating_mul(A::BITS as usize);
         let bs: *const Bs = ptr::from_ref::<Bs>(&self.bs[..e]);
         unsafe { &*(bs as *const SeqSlice<A>) }
     }
@@ -30,7 +30,7 @@ impl<A: Codec> Index<RangeToInclusive<usize>> for SeqSlice<A> {
     type Output = SeqSlice<A>;
 
     fn index(&self, range: RangeToInclusive<usize>) -> &Self::Output {
-        let e = (range.end + 1) * A::BITS as usize;
+        let e = range.end.saturating_add(1).saturating_mul(A::BITS as usize);
         let bs: *const Bs = ptr::from_ref::<Bs>(&self.bs[..e]);
         unsafe { &*(bs as *const SeqSlice<A>) }
     }
@@ -40,8 +40,8 @@ impl<A: Codec> Index<RangeInclusive<usize>> for SeqSlice<A> {
     type Output = SeqSlice<A>;
 
     fn index(&self, range: RangeInclusive<usize>) -> &Self::Output {
-        let s = range.start() * A::BITS as usize;
-        let e = (range.end() + 1) * A::BITS as usize;
+        let s = range.start().saturating_mul(A::BITS as usize);
+        let e = range.end().saturating_add(1).saturating_mul(A::BITS as usize);
 
         let bs: *const Bs = ptr::from_ref::<Bs>(&self.bs[s..e]);
         unsafe { &*(bs as *const SeqSlice<A>) }
@@ -52,7 +52,7 @@ impl<A: Codec> Index<RangeFrom<usize>> for SeqSlice<A> {
     type Output = SeqSlice<A>;
 
     fn index(&self, range: RangeFrom<usize>) -> &Self::Output {
-        let s = range.start * A::BITS as usize;
+        let s = range.start.saturating_mul(A::BITS as usize);
         let bs: *const Bs = ptr::from_ref::<Bs>(&self.bs[s..]);
         unsafe { &*(bs as *const SeqSlice<A>) }
     }
@@ -71,8 +71,8 @@ impl<A: Codec> Index<usize> for SeqSlice<A> {
     type Output = SeqSlice<A>;
 
     fn index(&self, i: usize) -> &Self::Output {
-        let s = i * A::BITS as usize;
-        let e = s + A::BITS as usize;
+        let s = i.saturating_mul(A::BITS as usize);
+        let e = s.saturating_add(A::BITS as usize);
         let bs: *const Bs = ptr::from_ref::<Bs>(&self.bs[s..e]);
         unsafe { &*(bs as *const SeqSlice<A>) }
     }
